@@ -33,8 +33,8 @@
 (* renameLocals does ("asis": rename map keyed by NAME, locals = declarations *)
 (* inside braces + everything between a function's parentheses, minus the     *)
 (* names declared outside every brace) and what a renamer working on bindings *)
-(* does ("scoped").  JavaScript evaluation beyond name binding is not         *)
-(* modelled.                                                                  *)
+(* does ("scoped"), and the name-keyed discipline of the proposed repairs      *)
+(* ("careful").  JavaScript evaluation beyond name binding is not modelled.   *)
 EXTENDS Integers, Sequences, SequencesExt, FiniteSets, TLC
 
 Idx(s) == [i \in 1..Len(s) |-> i]
@@ -322,13 +322,29 @@ AsisLocals(p, an) ==
       params    == UNION {{p[i].n, p[i].d} \ {"-"} : i \in {j \in ids : p[j].k = "fn" /\ p[j].f \in {"decl", "iife"}}}
   IN (inner \cup params) \ fileScope
 
+(* the discipline the proposed repairs implement, still keyed by name: a name  *)
+(* is renamed only if it is declared inside braces or as a parameter, every    *)
+(* occurrence of it that is declared or evaluated denotes a binding that is    *)
+(* not at file scope, and it is neither mentioned in a template substitution   *)
+(* nor the name of a method                                                    *)
+CarefulLocals(p, an, toks, keys) ==
+  LET ids == 1..Len(p)
+      atDepth0(i) == Depth(an, an.par[i]) = 0
+      cand == {p[i].n : i \in {j \in ids : p[j].k \in {"decl", "dstr", "for"} /\ ~atDepth0(j)}}
+              \cup ({p[i].n : i \in {j \in ids : p[j].k = "fn" /\ p[j].f \in {"decl", "iife"}}} \ {"-"})
+      TI == 1..Len(toks)
+      local(x) == LET tk == toks[x]
+                      key == IF tk.r \in {"d", "sd", "sdd"} THEN <<tk.sc, tk.n>> ELSE Resolve(an, keys, tk.sc, tk.n)
+                  IN key[1] > 0 /\ ~(tk.r = "r" /\ tk.w = "tmpl")
+  IN {n \in cand : /\ \A x \in TI : (toks[x].r \in {"d", "r", "s", "sd", "sdd"} /\ toks[x].n = n) => local(x)
+                   /\ \A x \in TI : (toks[x].r = "p" /\ toks[x].w = "bare") => toks[x].n # n}
+
 ModelOut(p, impl) ==
   LET an   == Analyse(p)
       bs   == Binds(p, an)
       keys == BKeys(bs)
       toks == Toks(p, an)
-      tmplNames == {toks[x].n : x \in {y \in 1..Len(toks) : toks[y].r = "r" /\ toks[y].w = "tmpl"}}
-      loc  == IF impl = "tmplfix" THEN AsisLocals(p, an) \ tmplNames ELSE AsisLocals(p, an)
+      loc  == IF impl = "asis" THEN AsisLocals(p, an) ELSE CarefulLocals(p, an, toks, keys)
       one(tk) ==
         IF impl = "scoped"
         THEN LET key == IF tk.r \in {"d", "sd", "sdd"} THEN <<tk.sc, tk.n>> ELSE Resolve(an, keys, tk.sc, tk.n)
@@ -341,8 +357,10 @@ ModelOut(p, impl) ==
              IN CASE tk.r = "x" -> <<O(OutKind(tk), IF tk.w = "tmpl-nested" /\ impl = "asis" THEN "`u ${" ELSE tk.t)>>
                   [] tk.r = "p" -> IF tk.w = "bare" /\ ren THEN <<O("id", Fresh(tk.n))>> ELSE <<O("id", tk.n)>>
                   [] tk.r \in {"s", "sd"} -> IF ren THEN <<O("id", tk.n), O("punct", ":"), O("id", Fresh(tk.n))>> ELSE <<O("id", tk.n)>>
-                  [] tk.r = "sdd" -> IF ren THEN <<O("id", Fresh(tk.n))>> ELSE <<O("id", tk.n)>>
-                  [] tk.r = "r" /\ tk.w = "tmpl" -> <<O("id", tk.n)>>
+                  [] tk.r = "sdd" -> IF ~ren THEN <<O("id", tk.n)>>
+                                     ELSE IF impl = "asis" THEN <<O("id", Fresh(tk.n))>>
+                                     ELSE <<O("id", tk.n), O("punct", ":"), O("id", Fresh(tk.n))>>
+                  [] tk.r = "r" /\ tk.w = "tmpl" /\ impl = "asis" -> <<O("id", tk.n)>>
                   [] OTHER -> IF ren THEN <<O("id", Fresh(tk.n))>> ELSE <<O("id", tk.n)>>
   IN FoldLeft(LAMBDA acc, tk : acc \o one(tk), <<>>, toks)
 
